@@ -15,7 +15,7 @@ from models import graphs as G
 from models import ref_surrogates as RS
 
 GEN_OPS = ("white", "corr", "aaft", "raaft", "twin_surr", "twins",
-           "rp_twins", "rp_twin_surr", "embed", "normalize")
+           "rp_twins", "rp_twin_surr", "embed", "normalize", "rp_set")
 
 
 def make_data(d):
@@ -53,7 +53,8 @@ class C15(Machine):
                    "after_normalize", "twins_nonempty", "twin_jump_taken",
                    "walk_restart", "identical_gaussians_or_sticky",
                    "odd_length", "even_length", "rp_twin_surrogates_ok",
-                   "float32_input", "failed_call_in_between")
+                   "float32_input", "failed_call_in_between",
+                   "rp_criterion_changed", "recurrence_network_object")
     real_vs_stub = {"real": ["Surrogates (all generators, twins, "
                              "normalisation, embedding), RecurrencePlot."
                              "twins / twin_surrogates, the compiled twin and "
@@ -86,7 +87,9 @@ class C15(Machine):
              "dtype": a.choice(("float64", "float64", "float64", "float32"))}
         cfg = {"lru": lru, "personality": a.choice(PERSONALITIES),
                "rp": {"dim": a.choice((1, 2, 3)), "tau": a.choice((1, 1, 2)),
-                      "thr": a.choice((0.05, 0.3, 1.0))}}
+                      "thr": a.choice((0.05, 0.3, 1.0)),
+                      "cls": a.choice(("RecurrencePlot", "RecurrencePlot",
+                                       "RecurrenceNetwork"))}}
         ops = []
         for _ in range(o.randrange(3, 16)):
             k = o.choice(GEN_OPS[:8] * 3 + GEN_OPS[8:])
@@ -107,6 +110,14 @@ class C15(Machine):
             if k in ("rp_twins", "rp_twin_surr"):
                 op.update(min_dist=o.choice((0, 1, 2, 4, 7)),
                           n=o.choice((1, 2, 3)))
+            if k == "rp_set":
+                # the recurrence criterion of the plot / network changes
+                op["kind"] = o.choice(("threshold", "threshold_std",
+                                       "recurrence_rate"))
+                op["v"] = {"threshold": o.choice((0.05, 0.3, 1.0)),
+                           "threshold_std": o.choice((0.1, 0.5)),
+                           "recurrence_rate": o.choice((0.1, 0.3, 0.5))}[
+                               op["kind"]]
             ops.append(op)
         return {"property": self.pid, "seed": seed, "run": idx,
                 "config": cfg, "data": d, "ops": ops}
@@ -138,9 +149,18 @@ class C15(Machine):
         if n_rp < 3:
             rpc = dict(rpc, dim=1)
             n_rp = T
-        rp = RecurrencePlot(X[0].copy(), threshold=rpc["thr"],
-                            dim=rpc["dim"], tau=rpc["tau"],
-                            metric="supremum", silence_level=3)
+        rp_cls = RecurrencePlot
+        if rpc.get("cls") == "RecurrenceNetwork":
+            from pyunicorn.timeseries.recurrence_network import \
+                RecurrenceNetwork
+            rp_cls = RecurrenceNetwork
+            R.probe("recurrence_network_object")
+        rp = rp_cls(X[0].copy(), threshold=rpc["thr"],
+                    dim=rpc["dim"], tau=rpc["tau"],
+                    metric="supremum", silence_level=3)
+        rp_thr = rpc["thr"]                # None: criterion set by a setter
+                                           # whose threshold the model does
+                                           # not recompute
         E_rp = RS.embed(X[0].astype(np.float32).astype(float), rpc["dim"],
                         rpc["tau"])
         emb = None                         # (dim, delay) of sur.embedding
@@ -253,16 +273,43 @@ class C15(Machine):
                                          op["delay"], op["thr"],
                                          op["min_dist"])
                             self._walk_s(out, X, want, step)
+                    elif k == "rp_set":
+                        setter = {"threshold": "set_fixed_threshold",
+                                  "threshold_std": "set_fixed_threshold_std",
+                                  "recurrence_rate":
+                                      "set_fixed_recurrence_rate"}[op["kind"]]
+                        out = C.call(getattr(rp, setter), op["v"])
+                        R.probe("rp_criterion_changed")
+                        if isinstance(out, C.Raised):
+                            self._bad("rp-setter-raises", f"step {step}: "
+                                      f"{setter}({op['v']}) raised {out!r}")
+                            break
+                        rp_thr = op["v"] if op["kind"] == "threshold" \
+                            else None
                     elif k in ("rp_twins", "rp_twin_surr"):
-                        Rm = (np.max(np.abs(E_rp[:, None, :]
-                                            - E_rp[None, :, :]), axis=2)
-                              < rpc["thr"]).astype(int)
-                        # distances within float32 rounding of the threshold
-                        # are not decidable from outside
-                        Dm = np.max(np.abs(E_rp[:, None, :]
-                                           - E_rp[None, :, :]), axis=2)
-                        if np.any(np.abs(Dm - rpc["thr"]) < 1e-5):
-                            continue
+                        if rp_thr is not None:
+                            Rm = (np.max(np.abs(E_rp[:, None, :]
+                                                - E_rp[None, :, :]), axis=2)
+                                  < rp_thr).astype(int)
+                            # distances within float32 rounding of the
+                            # threshold are not decidable from outside
+                            Dm = np.max(np.abs(E_rp[:, None, :]
+                                               - E_rp[None, :, :]), axis=2)
+                            if np.any(np.abs(Dm - rp_thr) < 1e-5):
+                                continue
+                        else:
+                            # the matrix the object reports now; every
+                            # state recurs with itself by definition
+                            Rm = np.array(rp.recurrence_matrix(), dtype=int)
+                            # (unless nothing recurs at all: a rate below
+                            # 1/n selects the threshold 0)
+                            if Rm.any() and not np.all(np.diag(Rm) == 1):
+                                self._bad("rp-diagonal", f"step {step}: the "
+                                          f"recurrence matrix has "
+                                          f"{int((np.diag(Rm) != 1).sum())} "
+                                          f"states that do not recur with "
+                                          f"themselves")
+                                break
                         want = RS.twins_from_R(Rm, op["min_dist"])
                         if any(want):
                             R.probe("twins_nonempty")
